@@ -73,7 +73,7 @@ Logged ==
     \/ IsEvent("SetReadDeadline") /\ ArmIdle(Ev.x, Ev.k)
     \/ IsEvent("CloseReq") /\ ClosesNow(Ev.x)
     \/ IsEvent("TClose") /\ TCloseStart
-    \/ IsEvent("TCloseRet") /\ TCloseEnd
+    \/ IsEvent("TCloseRet") /\ TCloseObs
     \/ IsEvent("Return") /\ pc[Ev.c] = "done" /\ UNCHANGED vars
          /\ \/ Ev.res = "ok" /\ res[Ev.c] = "ok" /\ val[Ev.c] # None /\ Ev.vc = val[Ev.c][1]
                              /\ Ev.vc = Ev.c /\ Ev.vw = writes[Ev.c]
@@ -98,7 +98,7 @@ Silent ==
                               \/ (~tclosed /\ Register(x)) \/ HandOver(x) \/ Abandon(x)
                               \/ (once[x] # FREE /\ TCloseOne(x))
                               \/ (NextIsErrOn(x) /\ Kill(x, "eof"))
-       \/ TCloseLock
+       \/ TCloseLock \/ TCloseEnd
 
 TraceNext == (Reset \/ Logged \/ Silent) /\ ReuseInv'
 
